@@ -22,17 +22,21 @@
    preconditions DEFINE from the inputs:  gh_creds = the fields of config->credentialData() that AVAIL reads,  gh_d = the element
    array of the offered list (set by a ghost hook on entry: CBMC resolves a dereference through the pointer's assignment history),  gh_wit = the offered name at the witness index g_i,  gh_pref = config->saslAuthMechanism(). */
 Credentials gh_creds;
-const qstr *gh_d;
-long gh_n;
 qstr gh_wit;
 qstr gh_pref;
-#define MECH_ALL_EQ(a, b) ((a).index == (b).index && SaslScramMechanism_EQ((a).alt_SaslScramMechanism, (b).alt_SaslScramMechanism) && SaslHtMechanism_EQ((a).alt_SaslHtMechanism, (b).alt_SaslHtMechanism))
-#define QSTR_EQ(a, b) ((a).id == (b).id && (a).gh_disabled == (b).gh_disabled && (a).gh_from.has == (b).gh_from.has && MECH_ALL_EQ((a).gh_from.v, (b).gh_from.v))
 #define CREDS_RELEVANT_EQ(a, b) ((a).password.id == (b).password.id && (a).htToken.has == (b).htToken.has && SaslHtMechanism_EQ((a).htToken.v.mechanism, (b).htToken.v.mechanism) && \
   (a).facebookAccessToken.id == (b).facebookAccessToken.id && (a).facebookAppId.id == (b).facebookAppId.id && (a).googleAccessToken.id == (b).googleAccessToken.id && (a).windowsLiveAccessToken.id == (b).windowsLiveAccessToken.id)
+/* A-STR-ATTR for the two strings the clauses compare (the offered name at the witness index and the preferred name): the attributes are
+   functions of the string (same id => same attributes), and fromString is injective on recognised names (fromString(s) = m => s = m.toString(),
+   proved for the real function in this run: fromString*.spec / toString*.spec) */
+#define A_STR_ATTR_FUNCTIONAL_AND_INJECTIVE \
+  ((gh_wit.id != gh_pref.id || QSTR_EQ(gh_wit, gh_pref)) && \
+   (!(gh_wit.gh_from.has && gh_pref.gh_from.has && SaslMechanism_EQ(gh_wit.gh_from.v, gh_pref.gh_from.v)) || gh_wit.id == gh_pref.id))
 #define IN_RANGE(i) (0 <= (i) && (i) < gh_n)
 #define PREF_SET (NONEMPTY(gh_pref) && gh_pref.gh_from.has)
 /* the summary element e (source index i) is the offered name at that index, it qualifies, and it parses to mechanism m */
 #define FROM_QUALIFYING_OFFER(e, i, m) (IN_RANGE(i) && QSTR_EQ(e, gh_d[i]) && QUALIFIES(e, gh_creds) && SaslMechanism_EQ((e).gh_from.v, m))
+/* the result m comes from an offered name: the source of the vector's maximum, of the probe, or the element a contains() on the offered list found */
+#define RESULT_WITNESS(W, m) ((gh_vec.n > 0 && W(gh_vec.max_elem, gh_vec.max_src, m)) || (gh_vec.has_probe && W(gh_vec.probe_elem, gh_vec.probe_src, m)) || (gh_found && W(gh_found_elem, gh_found_idx, m)))
 #define FROM_ENABLED_OFFER(e, i, m) (IN_RANGE(i) && QSTR_EQ(e, gh_d[i]) && !(e).gh_disabled && SaslMechanism_EQ((e).gh_from.v, m))
 #endif
